@@ -39,4 +39,18 @@ m["rechecked_on_current_tree"]={"suite_with_patch":suite,"demo_with_patch":demo,
 json.dump(m,open(f,"w"),indent=1)
 PY
 done
-cp $W/summary $out; cat $out
+# merge into the stored summary (a partial run replaces only the lines of the seeds it re-checked)
+python3 - "$out" "$W/summary" <<'PY'
+import sys,re
+out,new=sys.argv[1:]
+rows={}
+try:
+    for l in open(out):
+        if l.strip(): rows[l.split("\t")[0]]=l.rstrip("\n")
+except FileNotFoundError: pass
+for l in open(new):
+    if l.strip(): rows[l.split("\t")[0]]=l.rstrip("\n")
+key=lambda k:[int(x) for x in re.findall(r"\d+",k)]
+open(out,"w").write("\n".join(rows[k] for k in sorted(rows,key=key))+"\n")
+PY
+cat $W/summary
